@@ -181,6 +181,124 @@ fn run(line: &str) -> String {
                 gets.push(list.modules_at_address(q).map(|md| tag_of_name(&md.code_file())).collect());
             }
         }
+        13 | 14 | 15 => {
+            // 13: MinidumpMemory64List; 14: UnifiedMemoryList::Memory; 15: UnifiedMemoryList::Memory64
+            if kind == 14 {
+                let regions: Vec<MinidumpMemory> = ents
+                    .iter()
+                    .enumerate()
+                    .map(|(i, &(b, s, _))| MinidumpMemory {
+                        desc: minidump::format::MINIDUMP_MEMORY_DESCRIPTOR {
+                            start_of_memory_range: b,
+                            memory: minidump::format::MINIDUMP_LOCATION_DESCRIPTOR { data_size: s as u32, rva: i as u32 },
+                        },
+                        base_address: b,
+                        size: s,
+                        bytes: &[],
+                        endian: scroll::LE,
+                    })
+                    .collect();
+                let list = UnifiedMemoryList::Memory(MinidumpMemoryList::from_regions(regions));
+                for r in list.by_addr() {
+                    let tag = match r { UnifiedMemory::Memory(m) => m.desc.memory.rva as u64, UnifiedMemory::Memory64(m) => m.desc.data_size };
+                    table.push(format!("{}-{}:{}", r.base_address(), r.base_address() + r.size() - 1, tag));
+                }
+                for &q in &qs {
+                    gets.push(list.memory_at_address(q).map(|r| match r {
+                        UnifiedMemory::Memory(m) => vec![m.desc.memory.rva.to_string()],
+                        UnifiedMemory::Memory64(m) => vec![m.desc.data_size.to_string()],
+                    }).unwrap_or_default());
+                }
+            } else {
+                // the 64-bit descriptor has no spare field: the tag rides in data_size, the real size in `size`
+                let regions: Vec<MinidumpMemory64> = ents
+                    .iter()
+                    .enumerate()
+                    .map(|(i, &(b, s, _))| MinidumpMemory64 {
+                        desc: minidump::format::MINIDUMP_MEMORY_DESCRIPTOR64 { start_of_memory_range: b, data_size: i as u64 },
+                        base_address: b,
+                        size: s,
+                        bytes: &[],
+                        endian: scroll::LE,
+                    })
+                    .collect();
+                if kind == 13 {
+                    let list = MinidumpMemory64List::from_regions(regions);
+                    for r in list.by_addr() {
+                        table.push(format!("{}-{}:{}", r.base_address, r.base_address + r.size - 1, r.desc.data_size));
+                    }
+                    for &q in &qs {
+                        gets.push(list.memory_at_address(q).map(|r| vec![r.desc.data_size.to_string()]).unwrap_or_default());
+                    }
+                } else {
+                    let list = UnifiedMemoryList::Memory64(MinidumpMemory64List::from_regions(regions));
+                    for r in list.by_addr() {
+                        let tag = match r { UnifiedMemory::Memory(m) => m.desc.memory.rva as u64, UnifiedMemory::Memory64(m) => m.desc.data_size };
+                        table.push(format!("{}-{}:{}", r.base_address(), r.base_address() + r.size() - 1, tag));
+                    }
+                    for &q in &qs {
+                        gets.push(list.memory_at_address(q).map(|r| match r {
+                            UnifiedMemory::Memory(m) => vec![m.desc.memory.rva.to_string()],
+                            UnifiedMemory::Memory64(m) => vec![m.desc.data_size.to_string()],
+                        }).unwrap_or_default());
+                    }
+                }
+            }
+        }
+        16 | 17 => {
+            // UnifiedMemoryInfoList over a memory-info stream (16) or Linux maps (17, entries are lo,hi)
+            let mut bytes: Vec<u8> = vec![];
+            let mut text = String::new();
+            let list = if kind == 16 {
+                bytes.extend_from_slice(&16u32.to_le_bytes());
+                bytes.extend_from_slice(&48u32.to_le_bytes());
+                bytes.extend_from_slice(&(ents.len() as u64).to_le_bytes());
+                for (i, &(b, s, _)) in ents.iter().enumerate() {
+                    bytes.extend_from_slice(&b.to_le_bytes());
+                    bytes.extend_from_slice(&(i as u64).to_le_bytes());
+                    bytes.extend_from_slice(&[0u8; 8]);
+                    bytes.extend_from_slice(&s.to_le_bytes());
+                    bytes.extend_from_slice(&[0u8; 16]);
+                }
+                UnifiedMemoryInfoList::Info(MinidumpMemoryInfoList::read(&bytes, &bytes, scroll::LE, None).expect("meminfo read"))
+            } else {
+                for (i, &(lo, hi, _)) in ents.iter().enumerate() {
+                    text.push_str(&format!("{:x}-{:x} r-xp 00000000 00:00 {} /m{}\n", lo, hi, i, i));
+                }
+                UnifiedMemoryInfoList::Maps(MinidumpLinuxMaps::read(text.as_bytes(), text.as_bytes(), scroll::LE, None).expect("maps read"))
+            };
+            let tag = |r: &UnifiedMemoryInfo| match r {
+                UnifiedMemoryInfo::Info(m) => m.raw.allocation_base.to_string(),
+                UnifiedMemoryInfo::Map(m) => m.map.inode.to_string(),
+            };
+            for r in list.by_addr() {
+                let rg = r.memory_range().expect("range of a listed region");
+                table.push(format!("{}-{}:{}", rg.start, rg.end, tag(&r)));
+            }
+            for &q in &qs {
+                gets.push(list.memory_info_at_address(q).map(|r| vec![tag(&r)]).unwrap_or_default());
+            }
+        }
+        42 | 43 => {
+            // STACK WIN frame-data (42) / FPO (43) tables; the tag rides in the parameter_size field.
+            // No model prediction in C08 (the overlap repair is modelled under C07): oracle only.
+            let mut text = String::from("MODULE windows x86 ABCD1234 m\n");
+            for &(b, s, v) in &ents {
+                if kind == 42 {
+                    text.push_str(&format!("STACK WIN 4 {:x} {:x} 0 0 {:x} 0 0 0 1 $eip .raSearch ^ =\n", b, s, v));
+                } else {
+                    text.push_str(&format!("STACK WIN 0 {:x} {:x} 0 0 {:x} 0 0 0 0 0\n", b, s, v));
+                }
+            }
+            let sym = breakpad_symbols::SymbolFile::from_bytes(text.as_bytes()).expect("sym parse");
+            let t = if kind == 42 { &sym.win_stack_framedata_info } else { &sym.win_stack_fpo_info };
+            for (r, w) in t.ranges_values() {
+                table.push(format!("{}-{}:{}@{}+{}", r.start, r.end, w.parameter_size, w.address, w.size));
+            }
+            for &q in &qs {
+                gets.push(t.get(q).map(|w| vec![format!("{}@{}+{}", w.parameter_size, w.address, w.size)]).unwrap_or_default());
+            }
+        }
         4 | 41 | 5 => {
             let mut text = String::from("MODULE Linux x86 ABCD1234 m\n");
             match kind {
